@@ -17,3 +17,10 @@ package commands
 //@   ensures [config-gone]   result == nil ==> (forall k string :: { (k in repository.cfgKeys) } (k in repository.cfgKeys) ==> !strings.HasPrefix(k, "git-bug"))
 //@   ensures [storage-gone]  result == nil ==> repository.storageWiped
 //@   ensures [foreign-config-untouched] forall k string :: { (k in repository.cfgKeys) } !strings.HasPrefix(k, "git-bug") ==> (k in repository.cfgKeys) == old(k in repository.cfgKeys)
+
+// The web UI (C17): requests get a user attached - the only thing that lets them change anything - only when the
+// server was not started in read-only mode.
+//@ func runWebUI
+//@   props C17
+//@   opt assume_pre=(*Identity).Id
+//@   assert at `router.Use(auth.Middleware(author.Id()))` [a-user-is-attached-only-when-not-read-only] !opts.readOnly
